@@ -469,6 +469,8 @@ struct ChunkFooter {
 pub struct SecureChunk {
     ptr: NonNull<u8>,
     size: usize,
+    /// Alignment of the data area (the header sits directly below the data, padding comes first)
+    align: usize,
     generation: u32,
     pool_id: u32,
     canary: u32,
@@ -476,13 +478,20 @@ pub struct SecureChunk {
 
 impl SecureChunk {
     /// Create a new secure chunk with validation metadata
-    fn new(size: usize, generation: u32, pool_id: u32) -> Result<Self> {
+    /// Offset of the data area inside the raw allocation: the header rounded up to the alignment
+    fn data_offset(align: usize) -> usize {
+        (std::mem::size_of::<ChunkHeader>() + align - 1) & !(align - 1)
+    }
+
+    fn new(size: usize, generation: u32, pool_id: u32, align: usize) -> Result<Self> {
         let canary = fastrand::u32(..);
+        let align = align.max(8);
         let header_size = std::mem::size_of::<ChunkHeader>();
         let footer_size = std::mem::size_of::<ChunkFooter>();
-        let total_size = header_size + size + footer_size;
+        let data_offset = Self::data_offset(align);
+        let total_size = data_offset + size + footer_size;
 
-        let layout = Layout::from_size_align(total_size, 8)
+        let layout = Layout::from_size_align(total_size, align)
             .map_err(|_| ZiporaError::invalid_data("Invalid layout for chunk allocation"))?;
 
         let raw_ptr = unsafe { alloc(layout) };
@@ -490,8 +499,8 @@ impl SecureChunk {
             return Err(ZiporaError::out_of_memory(size));
         }
 
-        // Initialize header
-        let header = raw_ptr as *mut ChunkHeader;
+        // Initialize header (directly below the data area)
+        let header = unsafe { raw_ptr.add(data_offset - header_size) } as *mut ChunkHeader;
         unsafe {
             (*header) = ChunkHeader {
                 magic: CHUNK_HEADER_MAGIC,
@@ -505,7 +514,7 @@ impl SecureChunk {
         }
 
         // Initialize footer
-        let footer_ptr = unsafe { raw_ptr.add(header_size + size) as *mut ChunkFooter };
+        let footer_ptr = unsafe { raw_ptr.add(data_offset + size) as *mut ChunkFooter };
         unsafe {
             (*footer_ptr) = ChunkFooter {
                 canary,
@@ -515,11 +524,12 @@ impl SecureChunk {
         }
 
         // Return pointer to data area (after header)
-        let data_ptr = unsafe { raw_ptr.add(header_size) };
+        let data_ptr = unsafe { raw_ptr.add(data_offset) };
 
         Ok(Self {
             ptr: unsafe { NonNull::new_unchecked(data_ptr) },
             size,
+            align,
             generation,
             pool_id,
             canary,
@@ -629,16 +639,15 @@ impl SecureChunk {
             }
         }
 
-        let header_size = std::mem::size_of::<ChunkHeader>();
+        let data_offset = Self::data_offset(self.align);
         let footer_size = std::mem::size_of::<ChunkFooter>();
-        let total_size = header_size + self.size + footer_size;
+        let total_size = data_offset + self.size + footer_size;
 
-        let raw_ptr = unsafe { self.ptr.as_ptr().sub(header_size) };
+        let raw_ptr = unsafe { self.ptr.as_ptr().sub(data_offset) };
         // SAFETY: Layout::from_size_align() cannot fail because:
-        // 1. total_size was successfully used to allocate this chunk
-        // 2. Alignment of 8 is always valid (power of 2)
-        // 3. self.size was validated during allocation
-        let layout = Layout::from_size_align(total_size, 8).unwrap();
+        // 1. total_size and self.align were successfully used to allocate this chunk
+        // 2. self.size was validated during allocation
+        let layout = Layout::from_size_align(total_size, self.align).unwrap();
 
         unsafe {
             dealloc(raw_ptr, layout);
@@ -1046,7 +1055,7 @@ impl SecureMemoryPool {
         }
 
         // Fall back to regular allocation
-        let mut chunk = SecureChunk::new(self.config.chunk_size, generation, self.pool_id)?;
+        let mut chunk = SecureChunk::new(self.config.chunk_size, generation, self.pool_id, self.config.alignment)?;
 
         // SIMD-optimized memory zeroing on allocation if configured
         if self.config.zero_on_alloc {
@@ -1234,6 +1243,7 @@ impl SecureMemoryPool {
             let chunk = SecureChunk {
                 ptr: unsafe { NonNull::new_unchecked(data_ptr) },
                 size: self.config.chunk_size,
+                align: self.config.alignment.max(8),
                 generation,
                 pool_id: self.pool_id,
                 canary: header.canary,
